@@ -85,3 +85,24 @@ Theorem pulled_is_log_suffix db D e from :
   map od_sseq (get_ops db D from) = filter (fun s => from <=? s) (nseq 1 (N.to_nat e)) /\
   Forall (fun o => od_duid o = D) (get_ops db D from).
 Proof. apply get_ops_sseqs. Qed.
+
+(* C05 / C07: what a client executes out of a (non-subscribe) response is a SUFFIX of the response's foreign operations, in
+   their order — never an own operation, never a reordering, never a gap in the middle; and it is all of them whenever
+   the checkpoint arithmetic counts at least that many new foreign log entries *)
+Theorem incoming_is_suffix own c r ops :
+  incoming own false c r = Some ops ->
+  exists pre, filter (fun o => negb (str_eqb (o_cuid (op_id o)) own)) (p_ops r) = pre ++ ops.
+Proof.
+  unfold incoming. intros [= <-].
+  match goal with |- exists pre, ?l = pre ++ skipn ?n ?l => exists (firstn n l); symmetry; apply firstn_skipn end.
+Qed.
+
+Theorem incoming_takes_all own c r :
+  let others := filter (fun o => negb (str_eqb (o_cuid (op_id o)) own)) (p_ops r) in
+  (Z.of_nat (length others) <=
+   wrap64 (Z.of_N (u64sub (u64sub (sseq (p_cp r)) (sseq c)) (u64sub (cseq (p_cp r)) (cseq c)))))%Z ->
+  incoming own false c r = Some others.
+Proof.
+  intros others H. unfold incoming. fold others. f_equal.
+  replace (length others - Z.to_nat (Z.max 0 _))%nat with 0%nat; [reflexivity|]. lia.
+Qed.
